@@ -236,6 +236,22 @@ class C10(Property):
                 cands = [E[i, j] - R[i] - R[j] for j in near]
                 tag = ":coincident>=3" if coincident >= 3 else ""
                 ctx.require(any(abs(nds[i] - c) <= 1e-12 * scale for c in cands), "neighbor:surface" + tag, f"droplet {i}: {nds[i]} not in {cands}")
+        # --- the same queries after the droplets were linked to one data array and re-ordered in place ----------------------
+        if n >= 2 and not ctx.violations:
+            em_l = Emulsion(list(objs), copy=False)
+            try:
+                em_l.get_linked_data()
+            except Exception:  # noqa: BLE001 - linking is C20's subject; here it only prepares the emulsion
+                em_l = None
+            if em_l is not None:
+                em_l.reverse()
+                nd_l = em_l.get_neighbor_distances(False)
+                E_r = Deuc[::-1, ::-1].copy()
+                np.fill_diagonal(E_r, np.inf)
+                ctx.require(len(nd_l) == n and bool(np.all(np.abs(nd_l - E_r.min(axis=1)) <= 1e-12 * scale)), "neighbor:value:linked-reordered", f"after get_linked_data() and reverse(): {nd_l} vs row minima {E_r.min(axis=1)}")
+                M_l = em_l.get_pairwise_distances(grid=grid)
+                ctx.require(bool(np.all(np.abs(M_l - D[::-1, ::-1]) <= 1e-12 * scale)), "pairwise:value:linked-reordered", "distance matrix after get_linked_data() and reverse() is not the reversed matrix")
+                em_l.reverse()
         # --- overlap removal -------------------------------------------------------------
         md = spec["min_distance"]
         slack = 0.0 if spec.get("exact") else 1e-9 * scale
